@@ -95,6 +95,7 @@ type Drv struct {
 	touched         map[int]bool // observer slots (un)registered during the current op
 	unregDuring     []int
 	regDuring       []RegRec
+	foreignMaxID    uint32 // highest entity ID used in this epoch by temporary entities the model does not know
 	cbSeen          map[EID]int
 	inBatchCb       bool
 	Viol            []Violation
